@@ -275,24 +275,24 @@ func (r *Report) finish(evdir string, writeEvidence bool) int {
 			"wall_s":      r.Wall,
 			"violations":  violations,
 			"coverage": map[string]any{
-				"obligations":                total,
-				"discharged":                 discharged,
-				"checker_cmd":                "/verif/bin/hvc check -property " + r.Prop + " -tier " + r.Tier,
-				"trusted_base":               trustedBase,
-				"samples":                    samples,
-				"functions_under_contract":   funcs,
-				"by_backend":                 byBackend,
-				"solver_time_s":              solverTime,
-				"abstracted_sites":           absList,
-				"assumed_external_contracts": extList,
-				"known_findings":             knownHits,
-				"vacuity_alarms":             vacuity,
+				"obligations":                           total,
+				"discharged":                            discharged,
+				"checker_cmd":                           "/verif/bin/hvc check -property " + r.Prop + " -tier " + r.Tier,
+				"trusted_base":                          trustedBase,
+				"samples":                               samples,
+				"functions_under_contract":              funcs,
+				"by_backend":                            byBackend,
+				"solver_time_s":                         solverTime,
+				"abstracted_sites":                      absList,
+				"assumed_external_contracts":            extList,
+				"known_findings":                        knownHits,
+				"vacuity_alarms":                        vacuity,
 				"split_values_excluded_by_precondition": splitVacuous,
-				"trivially_true_obligations": trivial,
-				"unmechanised_lemmas":        unmechanised[r.Prop],
-				"bounded_checks":             []string{},
-				"runtime_sweep":              sweep,
-				"explanation":                "weakest-precondition style VCs generated by hvc from the current /repo tree (contracts in zz_contracts_verif.go), one SMT query per obligation",
+				"trivially_true_obligations":            trivial,
+				"unmechanised_lemmas":                   unmechanised[r.Prop],
+				"bounded_checks":                        []string{},
+				"runtime_sweep":                         sweep,
+				"explanation":                           "weakest-precondition style VCs generated by hvc from the current /repo tree (contracts in zz_contracts_verif.go), one SMT query per obligation",
 			},
 			"assumptions": append(append([]string{}, trustedBase...), unmechanised[r.Prop]...),
 		}
